@@ -734,9 +734,9 @@ theorem callBuiltin_alistGet_tail (r : Rec) (args : Val) :
     callBuiltin r .alistGet args = (do
       let (key, rest) ← nextArg r args
       let (alist, rest2) ← nextArg r rest
-      let (dflt, rest3) ← nextArg r rest2
-      let (_remove, rest4) ← nextArg r rest3
-      let (testfn, _) ← nextArg r rest4
+      let (dflt, rest3) ← nextArgOpt r rest2
+      let (_remove, rest4) ← nextArgOpt r rest3
+      let (testfn, _) ← nextArgOpt r rest4
       alistGetTail r key alist dflt testfn) := rfl
 
 /-! ### the built-ins are these loops -/
@@ -772,7 +772,7 @@ theorem callBuiltin_seqFind (r : Rec) (args : Val) :
     callBuiltin r .seqFind args = (do
       let (fv, rest) ← nextArg r args
       let (seq, rest2) ← nextArg r rest
-      let (dflt, _) ← nextArg r rest2
+      let (dflt, _) ← nextArgOpt r rest2
       let f ← r.eval fv
       callBuiltin.findVals r f dflt seq.elems) := rfl
 
@@ -780,16 +780,16 @@ theorem callBuiltin_assoc (r : Rec) (args : Val) :
     callBuiltin r .assoc_ args = (do
       let (key, rest) ← nextArg r args
       let (alist, rest2) ← nextArg r rest
-      let (testfn, _) ← nextArg r rest2
+      let (testfn, _) ← nextArgOpt r rest2
       callBuiltin.assocM r key alist testfn) := rfl
 
 theorem callBuiltin_alistGet (r : Rec) (args : Val) :
     callBuiltin r .alistGet args = (do
       let (key, rest) ← nextArg r args
       let (alist, rest2) ← nextArg r rest
-      let (dflt, rest3) ← nextArg r rest2
-      let (_remove, rest4) ← nextArg r rest3
-      let (testfn, _) ← nextArg r rest4
+      let (dflt, rest3) ← nextArgOpt r rest2
+      let (_remove, rest4) ← nextArgOpt r rest3
+      let (testfn, _) ← nextArgOpt r rest4
       let x ← callBuiltin.assocM r key alist testfn
       if truthy x then liftE (cdrV x) else pure dflt) := rfl
 
@@ -822,7 +822,7 @@ theorem callBuiltin_nthcdr (r : Rec) (args : Val) :
 theorem callBuiltin_last (r : Rec) (args : Val) :
     callBuiltin r .last_ args = (do
       let (l, rest) ← nextArg r args
-      let (nv, _) ← nextArg r rest
+      let (nv, _) ← nextArgOpt r rest
       let n ← if nv.isNil then pure none else do let i ← intOf nv; pure (some i)
       liftE (lastV l n)) := rfl
 
